@@ -386,7 +386,10 @@ func cmdE2E(args []string) error {
 				ev["mon"], ev["filter"], ev["ver"] = st.Mon, st.Mb, ver
 				u := e.wsbase + "/api/" + ver + "/monitor/messages"
 				if st.Mb != "" {
-					u += "/" + url.PathEscape(st.Mb)
+					// the mailbox is named the way clients name it: canonically, in mixed case, with an extension, as an address
+					spelled := []string{st.Mb, strings.ToUpper(st.Mb[:1]) + st.Mb[1:], st.Mb + "+watch", strings.ToUpper(st.Mb) + "+x@Example.COM", st.Mb + "@example.com"}[(i+st.Mon)%5]
+					ev["spelled"] = spelled
+					u += "/" + url.PathEscape(spelled)
 				}
 				conn, _, err := websocket.DefaultDialer.Dial(u, nil)
 				if err != nil {
